@@ -265,7 +265,7 @@ def plan(prop, tier, seed):
 
 
 CORPUS_FOR = {
-    "C01": ["D01", "D13", "D15", "K16", "K17"], "C02": ["D13"], "C03": ["D02"], "C04": [], "C05": ["D03", "D13"], "C06": ["D06"], "C07": ["D04", "D05"], "C08": [],
+    "C01": ["D01", "D13", "D15", "K16", "K17"], "C02": ["D13"], "C03": ["D02"], "C04": ["K17"], "C05": ["D03", "D13"], "C06": ["D06"], "C07": ["D04", "D05"], "C08": [],
     "C09": ["D02", "D06", "D09"], "C10": ["D08"], "C11": [], "C12": [], "C13": [], "C14": ["D09", "F13"], "C15": ["D10", "D14"], "C16": [], "C17": ["D11", "D13"],
     "C18": ["D09", "D13"], "C19": ["D12"], "C20": [],
 }
